@@ -31,11 +31,14 @@ pub struct File { f: std::fs::File }
 impl File {
     /// per-call snapshot of the file contents (the file is reached through `&File`)
     pub uninterp spec fn disk(&self) -> Seq<u8>;
+    /// no I/O error occurs on this handle (a healthy disk): read_at then always succeeds
+    pub uninterp spec fn healthy(&self) -> bool;
     /// FileExt::read_at: reads up to buf.len() bytes at `offset`; 0 only at / beyond end of file
     #[verifier::external_body]
     pub fn read_at(&self, buf: &mut [u8], offset: u64) -> (r: Result<usize, io::Error>)
         ensures
             final(buf)@.len() == old(buf)@.len(),
+            self.healthy() ==> r is Ok,
             r is Ok ==> r->Ok_0 <= old(buf)@.len() && offset + r->Ok_0 <= self.disk().len()
                 && (forall|i: int| 0 <= i < r->Ok_0 ==> final(buf)@[i] == self.disk()[offset + i])
                 && (forall|i: int| r->Ok_0 <= i < old(buf)@.len() ==> final(buf)@[i] == old(buf)@[i])
